@@ -154,6 +154,13 @@ def where(exc):
     tb = tb.tb_next
   if not frames:
     return "outside-ttconv"
+  if isinstance(exc, RecursionError):
+    # the frame where the stack ran out is arbitrary: name the function that recurses (the most frequent frame)
+    counts = {}
+    for f in frames:
+      counts[f] = counts.get(f, 0) + 1
+    top = max(counts.items(), key=lambda kv: (kv[1], kv[0]))[0]
+    return f"recursion-in:{top[0]}.{top[1]}"
   inner = frames[-1]
   if inner[0] in _GUARD_MODULES:
     callers = [f for f in frames if f[0] not in _GUARD_MODULES]
@@ -245,9 +252,8 @@ def read_stage(fmt, payload, rcfg):
   raise AssertionError
 
 
-def isd_times(doc):
-  st = list(ISD.significant_times(doc))
-  pick = st[:6] + st[-2:]
+def isd_times(st):
+  pick = st[:3] + st[-1:]
   ts = {Fraction(0)}
   for i, t in enumerate(pick):
     ts.add(t)
@@ -264,12 +270,16 @@ def stage_isd(doc, _cfg):
   for _t, isd in seq:
     if isd is None:
       raise RuntimeError("generate_isd_sequence returned an entry without ISD")
-  ts = isd_times(doc)
   st = ISD.significant_times(doc)
+  ts = isd_times(list(st))
   for i, t in enumerate(ts):
     ISD.from_model(doc, t, st)
-    if i % 3 == 0:
-      ISD.from_model(doc, t)
+    if i % 5 == 1:
+      ISD.from_model(doc, t)                        # the path without the significant-times cache
+
+
+def stage_isd_seq(doc, _cfg):
+  ISD.generate_isd_sequence(doc)
 
 
 def _imsc_cfg(cfg):
@@ -301,7 +311,7 @@ def stage_filter(doc, cfg):
 
 
 STAGES = {"isd": stage_isd, "write-imsc": stage_write_imsc, "write-srt": stage_write_srt, "write-vtt": stage_write_vtt, "filter": stage_filter,
-          "filter+isd": stage_isd, "filter+write-imsc": stage_write_imsc, "filter+write-srt": stage_write_srt, "filter+write-vtt": stage_write_vtt}
+          "filter+isd": stage_isd_seq, "filter+write-imsc": stage_write_imsc, "filter+write-srt": stage_write_srt, "filter+write-vtt": stage_write_vtt}
 
 
 def run_stage(stage, doc, cfg):
@@ -431,7 +441,8 @@ def evaluate(rec, fmt, payload, rcfg, index, origin, full=False):
   for fcfg in plan["lcd"]:
     outcome2, doc2, _ = read_stage(fmt, payload, rcfg)
     if doc2 is None:
-      raise RuntimeError(f"reader is not deterministic: {outcome} then {outcome2}")
+      _fail(rec, f"read:{fmt}:not-deterministic", c_read, fmt, payload, rcfg, "read", None, None, f"first call: a document, second call on the same input: {outcome2}", origin)
+      return
     contract = f"filter:{fmt} no exception"
     rec.evaluated(contract, (fp, json.dumps(fcfg, sort_keys=True)), None)
     res = run_stage("filter", doc2, fcfg)
@@ -439,6 +450,8 @@ def evaluate(rec, fmt, payload, rcfg, index, origin, full=False):
       _fail(rec, f"filter:{fmt}:{res[0]}", contract, fmt, payload, rcfg, "filter", fcfg, fcfg, res[1], origin)
       continue
     post = [("filter+isd", None), ("filter+write-imsc", plan["imsc"][0]), ("filter+write-srt", plan["srt"][0]), ("filter+write-vtt", plan["vtt"][0])]
+    if not full:
+      post = [post[0], post[1 + index % 3]]
     for stage, scfg in post:
       contract = f"{stage}:{fmt} no exception"
       rec.evaluated(contract, (fp, json.dumps([fcfg, scfg], sort_keys=True)), None)
@@ -512,7 +525,7 @@ def window(r, fmt, payload):
 _TOKEN_RE = re.compile(r"\r\n|\n|\r|[ \t]+|-->|\d+|[A-Za-z_]+|</?[A-Za-z][^<>\n]{0,40}>|\{/?[a-z]{1,9}\}|&[#\w]{1,10};|.", re.S)
 CHARS = ["\x00", "\t", "\n", "\r", "\x0b", "\x0c", "\x1c", "\x1d", "\x1e", "\x85", "\u2028", "\u2029", "\ufeff", " ", "<", ">", "&", ";", ":", ",", ".",
          "-", "/", "{", "}", "\"", "'", "=", "#", "%", "0", "9", "a", "Z", "é", "日", "\U0001F600", "\u0301", "\u200f", "\\"]
-NUMBERS = ["0", "00", "000", "1", "01", "9", "23", "24", "29", "30", "59", "60", "61", "99", "100", "999", "1000", "0000", "-1", "", "99999999999999999999",
+NUMBERS = ["0", "00", "000", "1", "01", "9", "23", "24", "29", "30", "59", "60", "61", "99", "100", "999", "1000", "0000", "-1", "", "9999999999",
            "1.5", "\u0663"]
 DICT = {
   "srt": ["-->", "->", "<b>", "</b>", "<i>", "</i>", "<u>", "</u>", "<font>", "<font color>", "<font color=\"\">", "<font color=\"zzz\">", "<font color=\"#12\">",
@@ -929,13 +942,13 @@ HANDMADE = {
            "<tt xmlns=\"http://www.w3.org/ns/ttml\"><head/><head/><body/><body/></tt>",
            "<tt xmlns=\"http://www.w3.org/ns/ttml\"><body><div><p>" + "<span>" * 60 + "x" + "</span>" * 60 + "</p></div></body></tt>",
            "<tt xmlns=\"http://www.w3.org/ns/ttml\"><body>" + "<div>" * 120 + "<p>x</p>" + "</div>" * 120 + "</body></tt>",
-           "<tt xmlns=\"http://www.w3.org/ns/ttml\"><body><div><p>" + "<span>" * 300 + "x" + "</span>" * 300 + "</p></div></body></tt>",
+           "<tt xmlns=\"http://www.w3.org/ns/ttml\"><body><div><p>" + "<span>" * 400 + "x" + "</span>" * 400 + "</p></div></body></tt>",
            "\ufeff<tt xmlns=\"http://www.w3.org/ns/ttml\"/>", "<?xml version=\"1.0\" encoding=\"utf-16\"?><tt xmlns=\"http://www.w3.org/ns/ttml\"/>"],
   "srt": ["", "\n", "1", "1\n", "1\n00:00:01,000 --> 00:00:02,000", "1\n00:00:01,000 --> 00:00:02,000\n", "1\n00:00:01,000 --> 00:00:02,000\n\n", "x\n",
-          "1\n00:00:01,000 --> 00:00:02,000\n" + "<b>" * 300 + "x\n", "1\n00:00:01,000 --> 00:00:02,000\n" + "<b>" * 60 + "x" + "</b>" * 60 + "\n",
+          "1\n00:00:01,000 --> 00:00:02,000\n" + "<b>" * 1100 + "x\n", "1\n00:00:01,000 --> 00:00:02,000\n" + "<b>" * 60 + "x" + "</b>" * 60 + "\n",
           "1\n00:00:02,000 --> 00:00:01,000\nx\n", "1\n00:00:01,000 --> 00:00:01,000\nx\n", "\ufeff1\n00:00:01,000 --> 00:00:02,000\nx\n"],
   "vtt": ["", "\n", "WEBVTT", "WEBVTT\n", "WEBVTT\n\n", "x", "\ufeffWEBVTT\n\n00:01.000 --> 00:02.000\nx\n", "WEBVTT\n\n00:01.000 --> 00:02.000", "WEBVTT\n\n00:01.000 --> 00:02.000\n",
-          "WEBVTT\n\n00:02.000 --> 00:01.000\nx\n", "WEBVTT\n\n00:01.000 --> 00:01.000\nx\n", "WEBVTT\n\n00:01.000 --> 00:02.000\n" + "<b>" * 300 + "x\n",
+          "WEBVTT\n\n00:02.000 --> 00:01.000\nx\n", "WEBVTT\n\n00:01.000 --> 00:01.000\nx\n", "WEBVTT\n\n00:01.000 --> 00:02.000\n" + "<b>" * 1100 + "x\n",
           "WEBVTT\n\n00:01.000 --> 00:02.000\n" + "<b>" * 60 + "x" + "</b>" * 60 + "\n", "WEBVTT\n\n00:01.000 --> 00:02.000\n<rt>x\n", "WEBVTT\n\nNOTE", "WEBVTT\n\nSTYLE\n"],
   "scc": ["", "\n", "Scenarist_SCC V1.0", "Scenarist_SCC V1.0\n\n", "x", "00:00:00:00\t9420", "Scenarist_SCC V1.0\n\n00:00:00:00\t", "Scenarist_SCC V1.0\n\n00:00:00:00",
           "Scenarist_SCC V1.0\n\n00:00:00:00\t94a1 94a1", "Scenarist_SCC V1.0\n\n00:00:00:00\t97a1 97a1", "Scenarist_SCC V1.0\n\n00:00:00:00\tc1c2", "Scenarist_SCC V1.0\n\n00:00:00:00\t942f 942f",
@@ -946,6 +959,42 @@ HANDMADE = {
           F.gsi_block() + F.tti_block(ebn=0xFE, tf=b"x"), F.gsi_block(DSC=b"0") + F.tti_block(tf=b"x"), F.gsi_block(DSC=b" ") + F.tti_block(tf=b"x"), F.gsi_block(DFC=b"STL00.01") + F.tti_block(tf=b"x"),
           F.gsi_block() + F.tti_block(tf=b""), F.gsi_block() + F.tti_block(tf=b"\x8a"), F.gsi_block() + F.tti_block(tf=b"A" * 112), F.gsi_block() + F.tti_block(tci=b"\xff\xff\xff\xff", tf=b"x"),
           F.gsi_block() + F.tti_block(tci=b"\0\0\2\0", tco=b"\0\0\1\0", tf=b"x"), F.gsi_block(CCT=b"99") + F.tti_block(tf=b"x"), F.gsi_block(CPN=b"000") + F.tti_block(tf=b"x")],
+}
+
+
+_T = '<tt xmlns="http://www.w3.org/ns/ttml" xmlns:tts="http://www.w3.org/ns/ttml#styling" xmlns:ttp="http://www.w3.org/ns/ttml#parameter">'
+_CUE = "WEBVTT\n\n00:00:01.000 --> 00:00:02.000\n"
+# one small input per shape that has been seen to fail (keeps the quick tier's verdict per defect independent of the seed)
+DIRECTED = {
+  "ttml": [
+    _T + '<body><div><p begin="0s" end="3s"><span tts:ruby="container"><span tts:ruby="baseContainer"><span tts:ruby="base">x</span></span><span tts:ruby="textContainer">'
+         '<span tts:ruby="delimiter">(</span><span tts:ruby="text" end="1s">y</span><span tts:ruby="delimiter">)</span></span></span></p></div></body></tt>',
+    _T + '<head><layout><region xml:id="r1"/><region xml:id="r2"/></layout></head><body><div><p><span tts:ruby="container"><span tts:ruby="baseContainer"><span tts:ruby="base">x</span>'
+         '</span><span tts:ruby="textContainer"><span>)</span></span></span></p></div></body></tt>',
+    _T + '<body><div><p><span tts:ruby="container"><span tts:ruby="base">x</span><span tts:ruby="text" begin="1s">y</span></span></p></div></body></tt>',
+    _T + '<body><div><p begin="1.0001s" end="1.0004s">x</p></div></body></tt>',
+    _T + '<body><div><p begin="1s" end="1s">x</p><p begin="2s" end="1s">y</p></div></body></tt>',
+    _T + '<body><div timeContainer="seq"><p>x</p><p>y</p></div></body></tt>',
+    _T + '<body><div><p>a<br tts:padding="1c" tts:textOutline="5%" tts:rubyReserve="both"/>b</p></div></body></tt>',
+    _T + '<body><div><p tts:textShadow="none" tts:textEmphasis="none" tts:rubyReserve="none">x</p></div></body></tt>',
+    _T + '<head><layout><region xml:id="r1" tts:position="center"/><region xml:id="r2" tts:position="top left" tts:extent="100px 50px"/></layout></head><body><div><p region="r1">x</p></div></body></tt>',
+    _T.replace(">", ' ttp:tickRate="0">') + '<body><div><p begin="10t">x</p></div></body></tt>',
+    _T.replace(">", ' ttp:frameRate="0">') + '<body><div><p begin="10f">x</p></div></body></tt>',
+    _T.replace(">", ' ttp:frameRateMultiplier="1000 0">') + '<body><div><p begin="10f">x</p></div></body></tt>',
+    _T.replace(">", ' ttp:cellResolution="0 0">') + '<body><div><p tts:fontSize="1c">x</p></div></body></tt>',
+    _T.replace(">", ' tts:extent="0px 0px">') + '<body><div><p tts:fontSize="10px">x</p></div></body></tt>',
+  ],
+  "srt": ["1\n00:00:01,000 --> 00:00:02,000\n<font color>x</font>\n", "1\n00:00:01,000 --> 00:00:02,000\n<![ x\n", "1\n00:00:01,000 --> 00:00:02,000\na</b></b></b>b<i>c\n",
+          "1\n00:00:01,000 --> 00:00:02,000\n\n2\n00:00:03,000 --> 00:00:04,000\n\n"],
+  "vtt": [_CUE + "</b></b></b></b>\n", _CUE + "</b></b></b>x\n", _CUE + "</b>x\n", _CUE + "</b></b>x\n", _CUE + "</b><b>x\n", _CUE + "</b></b><b>x\n", _CUE + "</b><00:00:01.500>x\n",
+          _CUE + "<rrt></r><ruby><rt>\nx\n", _CUE + "<rt>x\n", _CUE + "<ruby><ruby>x\n", _CUE + "<b><ruby>x<rt>y</rt></ruby></b>\n", _CUE + "<ruby>a<b>b</b><rt>y</rt></ruby>\n",
+          _CUE + "<ruby>a\nb<rt>y</rt></ruby>\n", _CUE + "<ruby>a<00:00:01.500>b<rt>y</rt></ruby>\n", _CUE + "<ruby>a<rt>y</rt></ruby>\n",
+          "WEBVTT\n\n00:00:01.000 --> 00:00:02.000 size:" + "9" * 400 + "%\nx\n", "WEBVTT\n\n00:00:01.000 --> 00:00:02.000\n\n00:00:03.000 --> 00:00:04.000\n\n"],
+  "scc": [("Scenarist_SCC V1.0\n\n00:00:01:00\t9425 9425 94ad 94ad c1c2\n\n00:00:02:00\t942c 942c 1320 1320\n", None), ("Scenarist_SCC V1.0\n\n00:00:01:00\t9723 9723 c8e9\n", None),
+          ("Scenarist_SCC V1.0\n\n00:00:01:00\t9429 9429 9723 9723 c8e9\n", None), ("Scenarist_SCC V1.0\n\n00:00:01:00\t94a1 94a1\n", None)],
+  "stl": [(F.gsi_block(DSC=b"0", MNR=b"00") + F.tti_block(tf=b"x"), {"max_row_count": "MNR"}), (F.gsi_block(DSC=b" ", MNR=b"00") + F.tti_block(vp=1, tf=b"x"), {"max_row_count": "MNR"}),
+          (F.gsi_block(TNB=b"00000") + F.tti_block(tf=b"x"), None), (F.gsi_block(TNB=b"     ") + F.tti_block(tf=b"x"), None),
+          (F.gsi_block() + F.tti_block(cs=2, tf=b"x") + F.tti_block(sn=1, cs=3, tf=b"y"), None)],
 }
 
 
@@ -1012,19 +1061,156 @@ def mutated(r, fmt, payload, tree, n):
   return payload, names
 
 
+def _ttml_doc(body="", head="", root_attrs=""):
+  ns = " ".join(f'xmlns:{p}="{u}"' for p, u in sorted(F.NS.items()) if p and p != "foo")
+  return f'<tt xmlns="{F.NS[""]}" {ns} xml:lang="en"{root_attrs}>{head}{body}</tt>'
+
+
+def _q(v):
+  from xml.sax.saxutils import quoteattr
+  return quoteattr(v)
+
+
+GRID_VALUES_QUICK = ["", "foo", "0", "-1", "1e9", "10%", "10% 10%", "1px", "1px 1px", "1px 1px 1px 1px 1px", "1c", "red", "none", "auto", "a b",
+                     "16 0", "0 9", "0 1", "1 0", "1000 0", "0s", "1f", "1t", "00:00:01:00", "before 10%", "both 1em", "1em both", "left 10%", ",", "\"\""]
+
+
+def grid(fmt, quick=True):
+  """deterministic families: every attribute x boundary value, every pair of markup tokens, every field x boundary value"""
+  out = []
+  if fmt == "ttml":
+    values = GRID_VALUES_QUICK if quick else F.BOUNDARY_VALUES
+    region = '<head><layout><region xml:id="r1" tts:extent="80% 20%" tts:origin="10% 70%"/></layout></head>'
+    for name in F.STYLE_NAMES:
+      pool = values + (F.STYLE_VALUES[name] if not quick else F.STYLE_VALUES[name][:3] + F.STYLE_VALUES[name][-2:])
+      for i, v in enumerate(pool):
+        where_ = i % 4
+        if where_ == 0:
+          doc = _ttml_doc(f'<body><div><p region="r1" {name}={_q(v)} begin="1s" end="2s">x<span>y</span></p></div></body>', region)
+        elif where_ == 1:
+          doc = _ttml_doc('<body><div><p region="r1" begin="1s" end="2s">x</p></div></body>',
+                          f'<head><layout><region xml:id="r1" tts:extent="80% 20%" {name}={_q(v)}/></layout></head>' if name != "tts:extent" else
+                          f'<head><layout><region xml:id="r1" {name}={_q(v)}/></layout></head>')
+        elif where_ == 2:
+          doc = _ttml_doc('<body><div><p region="r1" style="s1" begin="1s" end="2s">x<span style="s1">y</span></p></div></body>',
+                          f'<head><styling><initial {name}={_q(v)}/><style xml:id="s1" {name}={_q(v)}/></styling><layout><region xml:id="r1"/></layout></head>')
+        else:
+          doc = _ttml_doc(f'<body><div><p region="r1" begin="1s" end="3s"><set begin="1s" {name}={_q(v)}/><span {name}={_q(v)}>y</span><br {name}={_q(v)}/></p></div></body>', region)
+        out.append((doc, None, f"grid:{name}"))
+    body = '<body><div><p begin="10f" end="00:00:02:00">a</p><p begin="1000t" dur="2s">b</p></div></body>'
+    for name in sorted(F.ROOT_PARAMS):
+      for v in values + F.ROOT_PARAMS[name]:
+        out.append((_ttml_doc(body, "", f" {name}={_q(v)}" if name != "xml:lang" else "").replace(' xml:lang="en"', f" xml:lang={_q(v)}" if name == "xml:lang" else ' xml:lang="en"'),
+                    None, f"grid:{name}"))
+    tvals = [v for v in F.BOUNDARY_VALUES if re.search(r"\d", v)][:60] if not quick else ["", "foo", "0", "-1s", "1e3s", "0s", "1s", "0.0001s", "1.5f", "1t", "1.5t", "00:00:01", "00:00:01:99",
+                                                                                            "99:99:99.999", "00:00:60", "1h", "1d", "10", "9999999999s", "00:00:01.0000001"]
+    for name in ("begin", "end", "dur"):
+      for v in tvals:
+        for tc in ("", ' timeContainer="seq"', ' timeContainer="par"'):
+          out.append((_ttml_doc(f'<body><div{tc}><p {name}={_q(v)}>x<span {name}={_q(v)}>y</span></p><p begin="1s" end="1.0004s">z</p></div></body>'), None, f"grid:{name}"))
+    for v in ["par", "seq", "", "foo", "PAR"]:
+      for el in ("body", "div", "p", "span", "region", "br"):
+        body2 = {"body": f'<body timeContainer={_q(v)}><div><p>x</p></div><div><p>y</p></div></body>',
+                 "div": f'<body><div timeContainer={_q(v)}><p>x</p><p>y</p><p dur="1s">z</p></div></body>',
+                 "p": f'<body><div><p timeContainer={_q(v)}>x<span dur="1s">y</span><span>z</span><br/><span>w</span></p></div></body>',
+                 "span": f'<body><div><p><span timeContainer={_q(v)}><span>y</span>t<span dur="1s">z</span></span></p></div></body>',
+                 "region": '<body><div><p region="r1">x</p></div></body>',
+                 "br": f'<body><div><p>x<br timeContainer={_q(v)}><set tts:color="red"/><set tts:color="blue"/></br></p></div></body>'}[el]
+        head2 = f'<head><layout><region xml:id="r1" timeContainer={_q(v)}><set tts:color="red" dur="1s"/><set tts:color="blue"/></region></layout></head>' if el == "region" else ""
+        out.append((_ttml_doc(body2, head2), None, "grid:timeContainer"))
+    kinds = STRUCT_ATTRS["tts:ruby"]
+    for a in kinds:
+      for b in kinds:
+        out.append((_ttml_doc(f'<body><div><p><span tts:ruby={_q(a)}><span tts:ruby={_q(b)}>x</span><span tts:ruby="text" begin="1s">y</span></span></p></div></body>'), None, "grid:ruby"))
+        out.append((_ttml_doc(f'<body><div><p><span tts:ruby="container"><span tts:ruby={_q(a)}>x</span><span tts:ruby={_q(b)} end="1s">y</span></span></p></div></body>',
+                              '<head><layout><region xml:id="r1"/><region xml:id="r2"/></layout></head>'), None, "grid:ruby"))
+  elif fmt in ("vtt", "srt"):
+    toks = {"vtt": ["x", "<b>", "</b>", "<i>", "<c.red>", "</c>", "<v A>", "<lang en>", "<lang>", "<ruby>", "</ruby>", "<rt>", "</rt>", "<00:00:01.500>", "<00:00:00.000>", "\n", "&amp;", "<",
+                    "<rb>", "<u"],
+            "srt": ["x", "<b>", "</b>", "<i>", "</i>", "<u>", "<font color=\"red\">", "<font color=\"zzz\">", "<font color>", "<font>", "</font>", "{b}", "{/b}", "\n", "&amp;", "<", "<![ ", "<!--",
+                    "<?", "<b"]}[fmt]
+    head = "WEBVTT\n\n00:00:01.000 --> 00:00:02.000\n" if fmt == "vtt" else "1\n00:00:01,000 --> 00:00:02,000\n"
+    for a in toks:
+      out.append((head + a + "\n", None, "grid:token"))
+      for b in toks:
+        out.append((head + a + b + "\n", None, "grid:token-pair"))
+        if not quick:
+          for c in toks:
+            out.append((head + a + b + c + "\n", None, "grid:token-triple"))
+    if fmt == "vtt":
+      for st in DICT["vtt"]:
+        if ":" in st and "-->" not in st and "<" not in st:
+          out.append((f"WEBVTT\n\n00:00:01.000 --> 00:00:02.000 {st}\nx\n", None, "grid:setting"))
+          out.append((f"WEBVTT\n\n00:00:01.000 --> 00:00:02.000 vertical:rl {st} size:50%\nx\n", None, "grid:setting"))
+      for n in ("0", "-1", "100", "101", "1e3", "9" * 400, "0.5", ".5", "50.", "-0"):
+        for key in ("line", "position", "size"):
+          out.append((f"WEBVTT\n\n00:00:01.000 --> 00:00:02.000 {key}:{n}%\nx\n", None, "grid:setting-number"))
+          out.append((f"WEBVTT\n\n00:00:01.000 --> 00:00:02.000 {key}:{n}\nx\n", None, "grid:setting-number"))
+  elif fmt == "scc":
+    modes = {"none": [], "pop": ["9420", "9420"], "roll": ["9425", "9425", "94ad", "94ad"], "paint": ["9429", "9429"], "roll-erased": ["9425", "9425", "94ad", "94ad", "c1c2", "942c", "942c"],
+             "paint-erased": ["9429", "9429", "c1c2", "942c", "942c"], "pop-shown": ["9420", "9420", "9470", "9470", "c1c2", "942f", "942f"]}
+    words = ["94a1", "97a1", "97a2", "9723", "1320", "9220", "91b0", "c1c2", "9470", "9140", "91ae", "1020", "942c", "94ae", "942f", "94ad", "94a4", "9425", "9429", "9420", "94a8", "942a", "94ab", "8080",
+             "1ca1", "1c20"]
+    for mname, pre in sorted(modes.items()):
+      for i, w in enumerate(words):
+        out.append(("Scenarist_SCC V1.0\n\n00:00:01:00\t" + " ".join(pre + [w, w, "c8e9"]) + "\n\n00:00:03:00\t942c 942c\n", SCC_CFGS[i % len(SCC_CFGS)], f"grid:{mname}"))
+        if not quick or w in ("94a1", "97a2", "1320"):
+          for w2 in words:
+            out.append(("Scenarist_SCC V1.0\n\n00:00:01:00\t" + " ".join(pre + [w, w, w2, w2, "c8e9"]) + "\n", None, f"grid:{mname}-pair"))
+    for tc in DICT["scc"][2:16]:
+      out.append((f"Scenarist_SCC V1.0\n\n{tc}\t9420 9420 9470 9470 c1c2 942f 942f\n\n00:00:05:00\t942c 942c\n", None, "grid:timecode"))
+  elif fmt == "stl":
+    tti = F.tti_block(tf=b"Hello") + F.tti_block(sn=1, tci=b"\0\0\2\0", tco=b"\0\0\3\0", tf=b"World")
+    for name in sorted(F.GSI_BOUNDARY):
+      for v in F.GSI_BOUNDARY[name]:
+        for cfg in (None, STL_CFGS[-1]):
+          out.append((F.gsi_block(**{"TNB": b"00002", "TNS": b"00002", name: v}) + tti, cfg, f"grid:GSI.{name}"))
+    off = {n: o for n, o, _ in F.TTI_FIELDS}
+    for name, vals in sorted(TTI_EDGE.items()):
+      for v in vals:
+        for first in (True, False):
+          b1, b2 = bytearray(tti[:128]), bytearray(tti[128:])
+          (b1 if first else b2)[off[name]] = v
+          out.append((F.gsi_block(TNB=b"00002", TNS=b"00002") + bytes(b1) + bytes(b2), None, f"grid:TTI.{name}"))
+    for pos in range(5, 13):
+      for v in TC_EDGE:
+        b1 = bytearray(tti[:128])
+        b1[pos] = v
+        out.append((F.gsi_block() + bytes(b1), None, "grid:TTI.TC"))
+    for tf in F.STL_TEXT + [bytes([c]) for c in range(0, 0x20)] + [bytes([c]) for c in range(0x80, 0xA0)] + [bytes([c]) + b"a" for c in range(0xC0, 0xD0)]:
+      for cct in (b"00", b"01", b"02", b"03", b"04"):
+        if quick and cct not in (b"00", b"03") and len(tf) == 1:
+          continue
+        out.append((F.gsi_block(CCT=cct) + F.tti_block(tf=tf), None, "grid:TF"))
+  return out
+
+
+_PREFIX = {}
+
+
+def prefix(fmt):
+  """handmade boundary files, then the deterministic grids, then the corpus files as they are"""
+  key = (fmt, QUICK)
+  if key not in _PREFIX:
+    hm = [(p, SCC_CFGS[i % len(SCC_CFGS)] if fmt == "scc" else STL_CFGS[i % len(STL_CFGS)] if fmt == "stl" else None, "handmade") if not isinstance(p, tuple) else (p[0], p[1], "handmade")
+          for i, p in enumerate(HANDMADE[fmt] + DIRECTED[fmt])]
+    files = []
+    for name, payload in corpus()[fmt]:
+      if len(payload) > 12000:
+        payload = window(rng(0, "c18/window/" + name), fmt, payload)
+      files.append((payload, None, f"corpus:{name}"))
+    _PREFIX[key] = hm + grid(fmt, QUICK) + files
+  return _PREFIX[key]
+
+
 def make_input(seed, fmt, k):
-  """the k-th input of a format: deterministic in (seed, fmt, k)"""
+  """the k-th input of a format: deterministic in (seed, fmt, k) -> (payload, reader cfg, origin, all configurations?)"""
+  pre = prefix(fmt)
+  if k < len(pre):
+    p, cfg, origin = pre[k]
+    return p, cfg, origin, origin == "handmade"
   r = rng(seed, f"c18/{fmt}/{k}")
-  hm = HANDMADE[fmt]
-  if k < len(hm):
-    cfg = SCC_CFGS[k % len(SCC_CFGS)] if fmt == "scc" else STL_CFGS[k % len(STL_CFGS)] if fmt == "stl" else None
-    return hm[k], cfg, "handmade"
   files = corpus()[fmt]
-  if k < len(hm) + len(files):
-    name, payload = files[k - len(hm)]
-    if len(payload) > 12000:
-      payload = window(r, fmt, payload)
-    return payload, None, f"corpus:{name}"
   use_corpus = bool(files) and r.random() < (0.15 if fmt == "ttml" else 0.3)
   got = corpus_input(r, fmt, r.randrange(1 << 20)) if use_corpus else None
   if got is None:
@@ -1035,11 +1221,11 @@ def make_input(seed, fmt, k):
   if n:
     payload, names = mutated(r, fmt, payload, tree, n)
     origin += " + " + " + ".join(names)
-  return payload, cfg, origin
+  return payload, cfg, origin, False
 
 
 SHARE = {"ttml": 0.36, "vtt": 0.2, "srt": 0.12, "scc": 0.14, "stl": 0.18}
-TOTAL = {"quick": 13000, "thorough": 500000}
+TOTAL = {"quick": 10000, "thorough": 500000}
 CHUNK = 80
 
 
@@ -1048,8 +1234,8 @@ def work(item):
   rec = new_rec()
   STATS.clear()
   for k in range(lo, hi):
-    payload, cfg, origin = make_input(seed, fmt, k)
-    evaluate(rec, fmt, payload, cfg, k, origin, full)
+    payload, cfg, origin, every = make_input(seed, fmt, k)
+    evaluate(rec, fmt, payload, cfg, k, origin, full or every)
   rec.stats = dict(STATS)
   return rec
 
@@ -1178,8 +1364,8 @@ def shrink_failure(f):
   fmt, key = a["fmt"], a["key"]
   raw = base64.b64decode(a["data_b64"])
   payload = raw if a["binary"] else raw.decode("utf-8", "surrogatepass")
-  if key.endswith(":timeout") or ":only-after-other-stages:" in key:
-    return f
+  if key.endswith(":timeout") or ":only-after-other-stages:" in key or ":RecursionError:" in key:
+    return f                                     # (deep inputs are regular already and every evaluation is slow)
   budget = Budget(400 if QUICK else 1500, 25 if QUICK else 90)
 
   def test(p):
